@@ -60,6 +60,8 @@ pub fn run_plan<T: HCfg>(plan: &Value, detail: u8, emit: &mut dyn FnMut(&Value))
     let p_pause = pf(plan, "p_pause", 0.0);
     let pause_ms = pu(plan, "pause_ms", 300);
     let p_stats = pf(plan, "p_stats", 0.0);
+    // sessions only call poll_remote_clients (never advance): C12's "merely poll" scenario
+    let poll_only = pb(plan, "poll_only", false);
     let settle_ms = pu(plan, "settle_ms", 0);
     // faults (loss, duplication, outages) stop at this time (ms after start); 0 = never.
     // After it the run continues for `after_ms` on a perfect network (C05's settle phase).
@@ -250,7 +252,9 @@ pub fn run_plan<T: HCfg>(plan: &Value, detail: u8, emit: &mut dyn FnMut(&Value))
                 }
             }
             let mut steps: Vec<Value> = Vec::new();
-            if !w.peers[p].is_spec {
+            if poll_only {
+                steps.push(json!({"a":"poll","p":p}));
+            } else if !w.peers[p].is_spec {
                 if p_delay > 0.0 && rng.gen::<f64>() < p_delay && !w.peers[p].locals.is_empty() {
                     let hs = &w.peers[p].locals;
                     let h = hs[rng.gen_range(0..hs.len())];
